@@ -197,7 +197,7 @@ def _trim_cases(draw, tier):
     d = _surface(draw, False)
     n = draw(st.integers(5, 14 if tier == "thorough" else 10))
     m = draw(st.integers(5, 14 if tier == "thorough" else 10))
-    style = draw(st.sampled_from(["star", "spline2", "spline1", "rect", "convex", "star", "spline2"]))
+    style = draw(st.sampled_from(["star", "spline2", "spline1", "rect", "convex", "star", "spline2", "corner", "notch"]))
     cx, cy = draw(st.integers(6, 10)), draw(st.integers(6, 10))
     nv = draw(st.integers(3, 8))
     radii = [draw(st.integers(2, 5)) for _ in range(nv)]
@@ -210,6 +210,14 @@ def _trim_polygon(case):
     cx, cy = case["c"]
     n = len(case["radii"])
     pts = []
+    if case["style"] == "corner":
+        # a chamfered corner: the closed trim runs along two borders of the parametric rectangle
+        a_, b_ = case["radii"][0] * 2 / 16.0, case["radii"][1] * 2 / 16.0
+        return [[0.0, 0.0], [a_, 0.0], [0.0, b_]]
+    if case["style"] == "notch":
+        # a notch cut into the lower border
+        a_, w_, h_ = cx / 16.0, case["radii"][0] / 16.0, case["radii"][1] * 2 / 16.0
+        return [[a_ - w_, 0.0], [a_ + w_, 0.0], [a_, h_]]
     if case["style"] == "rect":
         r1, r2 = case["radii"][0], case["radii"][1]
         pts = [[cx - r1, cy - r2], [cx + r1, cy - r2], [cx + r1, cy + r2], [cx - r1, cy + r2]]
@@ -477,8 +485,12 @@ def check_exports(case, ctx):
     os.makedirs(base, exist_ok=True)
     tmp = tempfile.mkdtemp(prefix="c15-", dir=base)
     try:
-        objs2 = _fresh(case)
-        target2 = objs2[0] if len(objs2) == 1 else multi.SurfaceContainer(*objs2)
+        if len(case["shapes"]) % 2:
+            objs2 = _fresh(case)
+            target2 = objs2[0] if len(objs2) == 1 else multi.SurfaceContainer(*objs2)
+        else:
+            target2 = target          # the very same object(s) exported a second time
+            ctx.label("same-object-exported-twice")
         fn = os.path.join(tmp, "mesh." + fmt)
         if fmt == "obj":
             exchange.export_obj(target2, fn, vertex_spacing=k, update_delta=False)
